@@ -295,6 +295,53 @@ def check_roundtrip(out: Outcome, rng, root):
         shutil.rmtree(d, ignore_errors=True)
 
 
+def check_sibling_sources(out: Outcome, kind, rng, root):
+    """several runs kept side by side in ONE directory under names that differ only in a middle part (vasprun.300K.xml /
+    vasprun.500K.xml, run.1.xyz / run.2.xyz): every load, cold or from the cache, must return what parsing THAT file yields"""
+    lat = [[6, 0, 0], [0, 7, 0], [1, 0, 8]]
+    species = ['Li', 'Li', 'O']
+    shared = Path(tempfile.mkdtemp(prefix=f'c16_sib_{kind}_', dir=root))
+    tags = ['300K', '500K', '700K'][: int(rng.integers(2, 4))]
+    try:
+        runs = []
+        for tag in tags:
+            T = int(rng.integers(2, 5))
+            frames = [np.mod(rng.integers(0, 64, size=(3, 3)) / 64 + 0.01 * t, 1) for t in range(T)]
+            iso = Path(tempfile.mkdtemp(prefix='c16_iso_', dir=root))
+            try:
+                if kind == 'vasprun':
+                    src = mkfiles.write_vasprun(iso, lat, species, frames)
+                    ref = quiet_call(Trajectory.from_vasprun, xml_file=src)
+                    dst = shared / f'vasprun.{tag}.xml'
+                    shutil.copy(src, dst)
+                    runs.append((tag, dict(xml_file=str(dst)), ref))
+                else:
+                    cf, df = mkfiles.write_lammps(iso, lat, species, frames)
+                    ref = quiet_call(Trajectory.from_lammps, coords_file=cf, data_file=df, temperature=300.0, time_step=1.0)
+                    dst, ddst = shared / f'run.{tag}.xyz', shared / f'run.{tag}.lmp'
+                    shutil.copy(cf, dst)
+                    shutil.copy(df, ddst)
+                    runs.append((tag, dict(coords_file=str(dst), data_file=str(ddst), temperature=300.0, time_step=1.0), ref))
+            finally:
+                shutil.rmtree(iso, ignore_errors=True)
+        fn = Trajectory.from_vasprun if kind == 'vasprun' else Trajectory.from_lammps
+        for rnd in ('cold', 'cached'):
+            for tag, kw, ref in runs:
+                out.evaluations += 1
+                got = quiet_call(fn, **kw)
+                if ref[0] != 'ok':
+                    continue
+                if got[0] != 'ok' or not same(traj_sig(got[1]), traj_sig(ref[1])):
+                    out.fail('property', 'cache-hit-equals-parse' if rnd == 'cached' else 'load-equals-parse',
+                             {'kind': kind, 'sibling_sources': [f'{Path(k["xml_file" if kind == "vasprun" else "coords_file"]).name}' for _, k, _ in runs], 'file': tag, 'round': rnd},
+                             expected='the trajectory parsed from this very file', observed=(got[1] if got[0] != 'ok' else 'another trajectory'),
+                             note=f'cache files in the directory: {sorted(p.name for p in shared.iterdir() if p.name.endswith(".cache"))}')
+                    return
+        out.count(f'sibling-sources-{kind}')
+    finally:
+        shutil.rmtree(shared, ignore_errors=True)
+
+
 def run(tier: str, seed: int, scale: int) -> Outcome:
     out = Outcome()
     rng = np.random.default_rng(seed)
@@ -303,6 +350,9 @@ def run(tier: str, seed: int, scale: int) -> Outcome:
     real_universe = MDAnalysis.Universe
     try:
         check_roundtrip(out, rng, root)
+        for _ in range((2 if tier == 'quick' else 10) * scale):
+            check_sibling_sources(out, 'vasprun', rng, root)
+            check_sibling_sources(out, 'lammps', rng, root)
         for rep in range(2 * scale):
             unwrapped = rep % 2 == 1
             check_loader(out, 'lammps', rng, tier, root, unwrapped)
